@@ -460,11 +460,25 @@ func VerifQueueFull() {
 	sz := big[verifChoose(len(big))]
 	verifLogU64("event size", uint64(sz))
 	counts := [2]int{}
+	retry := verifBool("retry")
 	for cycle := 0; cycle < 2; cycle++ {
 		failed := false
 		for n := 0; n < 80 && !failed; n++ {
+			before := len(s.events)
 			if !s.appendEvent(sz, 1) {
 				failed = true
+				if retry && len(s.events) == before {
+					// Write itself failed (nothing of the event was accepted): the producer frees space and
+					// writes the same event again
+					s.checkCounters("full file")
+					for s.read < s.flushed {
+						s.readEvents(2, 4096)
+						if s.read > s.acked {
+							s.ack(s.read - s.acked)
+						}
+					}
+					verifAssert(s.appendEvent(sz, 1), "after space was freed the same Write succeeds")
+				}
 			}
 		}
 		if !failed && !s.flush() {
@@ -495,7 +509,9 @@ func VerifQueueFull() {
 		spanned := uint((sz+szEventHeader)/qPayload + 2)
 		verifAssert(used <= 1+spanned+1, "after everything was ACKed the queue holds at most its header page, the pages of the most recent event and one more page")
 	}
-	verifAssert(counts[1]-counts[0] >= counts[0]-2, "the second fill cycle stores as many events as the first (space was reclaimed)")
+	if !retry {
+		verifAssert(counts[1]-counts[0] >= counts[0]-2, "the second fill cycle stores as many events as the first (space was reclaimed)")
+	}
 	verifReach("end")
 }
 
@@ -516,7 +532,7 @@ func VerifQueueMisuse() {
 		}
 		return false
 	}
-	switch verifChoose(9) {
+	switch verifChoose(11) {
 	case 0: // reader without transaction
 		_, e := r.Next()
 		verifAssert(e != nil && isKind(e, InactiveTx), "Reader.Next without Begin: InactiveTx")
@@ -577,6 +593,28 @@ func VerifQueueMisuse() {
 		}
 	case 8: // ACK(0) is a no-op
 		verifAssert(q.ACK(0) == nil, "ACK(0)")
+	case 9: // the queue is closed while the reader is inside a read transaction
+		verifAssert(r.Begin() == nil, "Begin")
+		n, e0 := r.Next()
+		verifAssert(e0 == nil && n == 100, "Next")
+		verifAssert(q.Close() == nil, "Queue.Close")
+		_, e := r.Read(make([]byte, 8))
+		verifAssert(e != nil && isKind(e, ReaderClosed), "Reader.Read after the queue was closed: ReaderClosed")
+		_, e2 := r.Next()
+		verifAssert(e2 != nil && isKind(e2, ReaderClosed), "Reader.Next after the queue was closed: ReaderClosed")
+		_, e3 := r.Available()
+		verifAssert(e3 != nil && isKind(e3, ReaderClosed), "Reader.Available after the queue was closed: ReaderClosed")
+		r.Done()
+	case 10: // an oversized ACK changes nothing
+		p0, _ := q.Pending()
+		e := q.ACK(uint(p0) + 1 + uint(verifChoose(2)))
+		verifAssert(e != nil && isKind(e, ACKTooMany), "ACK of more events than pending: ACKTooMany")
+		p1, e1 := q.Pending()
+		a1, e2 := q.Active()
+		verifAssert(e1 == nil && e2 == nil && p1 == p0 && int(a1) == p0, "a rejected ACK leaves Pending and Active unchanged")
+		s.checkCounters("after the rejected ACK")
+		s.drain(4096)
+		verifAssert(s.read == len(s.events), "and every event is still delivered")
 	}
 	// nothing changed: a fresh queue over the same file still has both events (unless drained above)
 	verifReach("end")
@@ -700,5 +738,69 @@ func VerifQueueChunks() {
 	verifAssert(s.read == 3, "all three events were delivered in order")
 	s.ack(3)
 	s.checkCounters("after the ACK")
+	verifReach("end")
+}
+
+
+// VerifQueueFault (C06, C08 for pq): an I/O failure (write or sync, at a
+// symbolic call) inside the transaction of a flush or an ACK: the call
+// returns an error, nothing is lost or duplicated, a retry succeeds, later
+// flushes do not disturb earlier events, reopening shows the same queue.
+func VerifQueueFault() {
+	s := newQ(64, 0)
+	// prefix: three flushed events, two of them read and ACKed (so that free pages exist)
+	for k := 0; k < 3; k++ {
+		verifAssert(s.appendEvent(pickSize(), 1), "append succeeds")
+	}
+	verifAssert(s.flush(), "Flush succeeds")
+	s.readEvents(2, 4096)
+	s.ack(2)
+	// two more events, flushed with an injected failure
+	verifAssert(s.appendEvent(2*qPayload+17, 1), "append succeeds")
+	verifAssert(s.appendEvent(pickSize(), 1), "append succeeds")
+	kinds := []int{txfile.VerifFaultWrite, txfile.VerifFaultSync}
+	kind, ord := kinds[verifChoose(2)], verifChoose(verifParam("faultords", 3))
+	op := verifChoose(2)
+	if op == 0 {
+		s.disk.SetFault(kind, ord, 1)
+		err := s.w.Flush()
+		s.sync()
+		if err != nil {
+			verifAssert(s.disk.Faults() > 0, "Flush fails only because of the injected failure")
+			s.disk.ClearFault()
+			verifAssert(s.flush(), "the retried Flush succeeds")
+		}
+	} else {
+		verifAssert(s.flush(), "Flush succeeds")
+		s.readEvents(1, 4096)
+		s.disk.SetFault(kind, ord, 1)
+		n0 := s.disk.Faults()
+		err := s.q.ACK(1)
+		if err == nil {
+			s.acked++
+			s.sync()
+		} else {
+			verifAssert(s.disk.Faults() > n0, "ACK fails only because of the injected failure")
+			s.disk.ClearFault()
+			s.checkCounters("after the failed ACK")
+			s.ack(1)
+		}
+	}
+	s.disk.ClearFault()
+	s.checkCounters("after the operation with the failure")
+	// more traffic that re-uses freed pages
+	verifAssert(s.appendEvent(pickSize(), 1), "append succeeds")
+	verifAssert(s.flush(), "Flush succeeds")
+	verifAssert(s.appendEvent(100, 1), "append succeeds")
+	verifAssert(s.flush(), "Flush succeeds")
+	s.checkCounters("after more traffic")
+	if verifBool("reopen") {
+		s.reopen()
+		s.checkCounters("after reopen")
+	}
+	s.r = s.q.Reader()
+	s.drain(4096)
+	verifAssert(s.read == len(s.events), "every flushed event is delivered exactly once, in order, with its bytes")
+	s.checkCounters("after the drain")
 	verifReach("end")
 }
